@@ -36,7 +36,7 @@ import (
 	"verifh/hx"
 )
 
-func main() { hx.Main(map[string]func(*hx.Ctx){"mb": runMB, "mbbox": runBox}) }
+func main() { hx.Main(map[string]func(*hx.Ctx){"mb": runMB, "mbbox": runBox, "mbconc": runConc}) }
 
 var filterU = []string{"a", "b", "a/b", "a/+", "a/#", "#", "+", "+/b", "/a", "a/"}
 var nameU = []string{"a", "b", "a/b", "/a", "a/", "a/b/c", "b/b"}
@@ -471,6 +471,12 @@ func (w *world) opSub(n int, subs []subT) {
 		ps[i] = packet.Subscription{Topic: s.f, QOS: packet.QOS(s.q)}
 	}
 	err := w.be.Subscribe(cl.c, ps, nil)
+	// the caller's slice belongs to the caller (broker/client.go passes the decoded packet's slice): overwrite it, a backend
+	// that kept pointers into it shows the damage in the next snapshot
+	for i := range ps {
+		ps[i].Topic = "scribbled/" + ps[i].Topic
+		ps[i].QOS = 2 - ps[i].QOS
+	}
 	w.emit(fmt.Sprintf("sub %d %s", n, strings.Join(parts, ";")), errText(err), true)
 }
 
@@ -483,7 +489,11 @@ func (w *world) opUnsub(n int, fs []string) {
 	for i, f := range fs {
 		parts[i] = hx.Hx([]byte(f))
 	}
-	err := w.be.Unsubscribe(cl.c, fs, nil)
+	fsCopy := append([]string{}, fs...)
+	err := w.be.Unsubscribe(cl.c, fsCopy, nil)
+	for i := range fsCopy {
+		fsCopy[i] = "scribbled"
+	}
 	w.emit(fmt.Sprintf("unsub %d %s", n, strings.Join(parts, ";")), errText(err), true)
 }
 
@@ -552,8 +562,13 @@ func (w *world) opPub(n int, m packet.Message) {
 		select {
 		case err := <-ch:
 			w.emit(op, errText(err), true)
-		case <-time.After(10 * time.Second):
-			w.hang(op)
+		case <-time.After(time.Second):
+			// the call waits although no live session's matching queue is full: report the observation (the
+			// specification judges it) and end this history — the call holds the backend's mutex for good
+			w.emit(op, "blocked", false)
+			w.c.Stat("publish_blocked_unexpectedly", 1)
+			w.dead = true
+			lostN++
 		}
 		return
 	}
@@ -814,7 +829,35 @@ func payload() string {
 	return hxs(fmt.Sprintf("p%d", payloadCtr))
 }
 
+// sizedPayload returns n bytes (hex), distinguishable by a counter and a position pattern
+func sizedPayload(n int) string {
+	payloadCtr++
+	b := make([]byte, n)
+	for i := range b {
+		b[i] = byte(i*7 + payloadCtr)
+	}
+	return hx.Hx(b)
+}
+
 // ---------------------------------------------------------------- families of histories
+// F1c: payload sizes 0 .. 64 KiB (and just beyond), through live delivery, capping, retained store and replay
+func famSizes(c *hx.Ctx) {
+	x := hxs("x")
+	for i, n := range []int{0, 1, 127, 128, 16383, 16384, 65535, 65536, 70001} {
+		q := i % 3
+		ops := []string{
+			"setup 1 " + x + " 0 0", "sub 1 " + hxs("a/#") + ",1",
+			"setup 2 - 1 0", "sub 2 " + hxs("+/b") + ",2;" + hxs("a/b") + ",0",
+			fmt.Sprintf("pub 2 %s,%s,%d,1", hxs("a/b"), sizedPayload(n), q),
+			"deq 1", "deq 2",
+			"setup 3 - 1 0", "sub 3 " + hxs("#") + ",2", "deq 3",
+			fmt.Sprintf("pub 1 %s,%s,%d,0", hxs("a/b"), sizedPayload(n), (q+1)%3),
+			"deq 1", "deq 2", "deq 3",
+		}
+		runHist(c, hist{cap: 3, ops: ops}, "sizes")
+	}
+}
+
 // F1: one subscriber with one or two filters, every filter pair, every name, QoS triples
 func famTargets(c *hx.Ctx) {
 	k := 0
@@ -920,7 +963,7 @@ func famRetained(c *hx.Ctx) {
 						ops = append(ops, fmt.Sprintf("pub 9 %s,%s,%d,1", hxs(nameU[ti]), payload(), (rq+1)%3))
 					}
 					if k%5 == 0 {
-						ops = append(ops, fmt.Sprintf("pub 9 %s,-,0,1", hxs(t)))
+						ops = append(ops, fmt.Sprintf("pub 9 %s,-,%d,1", hxs(t), (k/5)%3)) // delete, at every QoS
 					}
 					if k%7 == 0 {
 						ops = append(ops, fmt.Sprintf("pub 9 %s,%s,1,0", hxs(t), payload()))
@@ -934,12 +977,33 @@ func famRetained(c *hx.Ctx) {
 	}
 }
 
+// F2b: many retained topics (more than any plausible replay limit), replayed by one- and multi-level wildcards
+func famManyRetained(c *hx.Ctx) {
+	for v := 0; v < 3; v++ {
+		var ops []string
+		for i := 0; i < 24; i++ {
+			t := fmt.Sprintf("r/%d", i)
+			if i%2 == 1 {
+				t = fmt.Sprintf("r/%d/x", i)
+			}
+			ops = append(ops, fmt.Sprintf("pub 9 %s,%s,%d,1", hxs(t), payload(), (i+v)%3))
+		}
+		ops = append(ops, fmt.Sprintf("pub 9 %s,-,%d,1", hxs("r/4"), v), // one deleted again
+			"setup 1 "+hxs("x")+" 0 0", fmt.Sprintf("sub 1 %s,%d", hxs("r/+"), v), fmt.Sprintf("sub 1 %s,%d;%s,1", hxs("r/#"), (v+1)%3, hxs("r/+/x")))
+		for i := 0; i < 6; i++ {
+			ops = append(ops, "deq 1")
+		}
+		runHist(c, hist{cap: 100, ops: ops}, "manyretained")
+	}
+}
+
 // F3: every sequence of the given depth over a fixed alphabet, after a fixed prefix
 func famExhaustive(c *hx.Ctx, depth int) {
 	x := hxs("x")
 	alpha := []string{
 		"sub 1 " + hxs("a/+") + ",1",
 		"sub 1 " + hxs("a/#") + ",0;" + hxs("a/b") + ",2",
+		"sub 1 " + hxs("a/b") + ",0;" + hxs("a/+") + ",2;" + hxs("a/b") + ",1", // one filter listed twice: the last entry counts
 		"sub 2 " + hxs("#") + ",2",
 		"sub 2 " + hxs("+/b") + ",0;" + hxs("a/b") + ",1",
 		"unsub 1 " + hxs("a/+"),
@@ -1177,7 +1241,9 @@ func runMB(c *hx.Ctx) {
 	}
 	famTargets(c)
 	famOwnFull(c)
+	famSizes(c)
 	famRetained(c)
+	famManyRetained(c)
 	if c.Thorough() {
 		famExhaustive(c, 4)
 		famRandom(c, 600, 400)
